@@ -71,8 +71,28 @@ class C12:
         model_noise = rng.choice([None, 0.1, 0.03])
         if data_noise is None and model_noise is None:
             model_noise = 0.08
+        # per-illumination-channel variant: 2-3 channels with their own
+        # wavelength and noise level (dictionaries in free key order)
+        chans = None
+        if family == 'sphere' and rng.random() < 0.3:
+            chans = rng.choice([['red', 'green'], ['red', 'green', 'blue']])
+            n, m = min(n, 8), min(m, 8)
+            wl = [[c_, rfloat(rng, 0.45, 0.7, 3)] for c_ in chans]
+            rng.shuffle(wl)
+            optics['illum_wavelen'] = {'dict': wl}
+            optics_from = rng.choice(['model', 'data'])
+
+            def chnoise():
+                it = [[c_, rfloat(rng, 0.03, 0.3, 3)] for c_ in chans]
+                rng.shuffle(it)
+                return {'dict': it}
+            if model_noise is not None and rng.random() < 0.7:
+                model_noise = chnoise()
+            if data_noise is not None and rng.random() < 0.7:
+                data_noise = chnoise()
         det = b.emit('detector_grid', {
             'shape': [n, m], 'spacing': spacing,
+            'extra_dims': {'illumination': chans} if chans else None,
             'optics': dict(optics, noise_sd=data_noise)
             if optics_from in ('data', 'both')
             else {'noise_sd': data_noise}}, store='det')
@@ -140,14 +160,16 @@ class C12:
                                              if optics_from == 'both'
                                              else {})),
                'sigma': model_noise if model_noise is not None
-               else data_noise, 'free': free, 'frac': frac, 'nsph': nsph}
+               else data_noise, 'free': free, 'frac': frac, 'nsph': nsph,
+               'chans': chans}
         # data from the model's own forward calculation + seeded noise
         data = b.emit('noisy_data', {
             'mo': mo, 'pars': dict(truth), 'det': det,
-            'noise': cfg['sigma'], 'seed': rng.randrange(2 ** 31),
+            'noise': cfg['sigma'] if not isinstance(cfg['sigma'], dict)
+            else 0.1, 'seed': rng.randrange(2 ** 31),
             'noise_sd_attr': data_noise}, store='data')
         datas = [(data, 'grid')]
-        if rng.random() < 0.4:
+        if rng.random() < 0.4 and not chans:
             k = rng.randint(3, n * m)
             sub = b.emit('make_subset', {'det': data, 'pixels': k,
                                          'seed': rng.randrange(1000)},
@@ -190,7 +212,7 @@ class C12:
                 if ref is not None:
                     b.emit('calc', ref, tags={'k': 'ref', 'grp': group,
                                               'ev': 'ref'})
-            if rng.random() < 0.25 and dk == 'grid':
+            if rng.random() < 0.25 and dk == 'grid' and not chans:
                 k = rng.randint(2, n * m)
                 b.emit('named_eval', {'mo': mo, 'what': 'lnposterior',
                                       'values': v, 'data': d, 'pixels': k,
@@ -424,14 +446,29 @@ class C12:
                     pts = [(float(xs[s // ny]), float(ys[s % ny]), z0)
                            for s in sel.tolist()]
                 try:
-                    res = np.array([float(np.asarray(refmap[p]).reshape(-1)[0])
-                                    - float(np.asarray(dmap[p]).reshape(-1)[0])
-                                    for p in pts])
+                    R = np.array([np.asarray(refmap[p], float).reshape(-1)
+                                  for p in pts])
+                    D = np.array([np.asarray(dmap[p], float).reshape(-1)
+                                  for p in pts])
                 except KeyError:
                     continue
-                N = len(pts)
-                like = -N / 2 * LN2PI - N * math.log(sigma) - \
-                    0.5 * float(np.sum((res / sigma) ** 2))
+                if R.shape != D.shape:
+                    continue
+                if isinstance(sigma, dict):
+                    # channel order of the rows = the data's channel axis
+                    labels = [str(x) for x in np.asarray(
+                        data_rec['payload']['coords']['illumination']
+                        ['values']).tolist()]
+                    smap = dict((k_, v_) for k_, v_ in sigma['dict'])
+                    sg = np.array([smap[l_] for l_ in labels])
+                    if R.shape[1] != len(sg):
+                        continue
+                else:
+                    sg = np.full(R.shape[1], float(sigma))
+                N = R.size
+                like = -N / 2 * LN2PI - R.shape[0] * float(
+                    np.sum(np.log(sg))) - 0.5 * float(
+                    np.sum(((R - D) / sg) ** 2))
                 got = _num(rec2['payload'])
                 xc = ex.stats.setdefault('extra', {})
                 xc['gauss_ref_' + key] = xc.get('gauss_ref_' + key, 0) + 1
